@@ -74,7 +74,10 @@ Inductive mut :=
 | MSetCookie (n rendered : str)
 | MHook (e : hookedit)
 | MDelHeader (n : str)        (* response.headers.pop(n, None) / del response.headers[n] when present *)
-| MClearHeaders.              (* response.headers.clear() *)
+| MClearHeaders               (* response.headers.clear() *)
+| MEnv (is_method : bool) (v : str).
+                              (* request['REQUEST_METHOD'] = v / request['PATH_INFO'] = v : the environ, not the
+                                 response; what routing sees afterwards is decided in model/App.v *)
 
 Inductive hres :=
 | HRet (o : out)
@@ -186,6 +189,7 @@ Definition apply_mut (m : mut) (st : rstate) : rstate :=
   | MHook _ => st                                               (* the hook lists are not part of the response *)
   | MDelHeader n => st_hs st (filter (fun kv => negb (str_eqb n (fst kv))) (s_hs st))
   | MClearHeaders => st_hs st []
+  | MEnv _ _ => st
   end.
 Definition apply_muts (ms : list mut) (st : rstate) : rstate := fold_left (fun s m => apply_mut m s) ms st.
 
@@ -879,6 +883,7 @@ Definition dec_mut (l : list Z) : option (mut * list Z) :=
   | 5%Z :: a :: j :: r => Some (MHook (HEAdd (negb (Z.eqb a 0)) (Z.to_nat j)), r)
   | 6%Z :: r => match dec_str r with Some (n, r') => Some (MDelHeader n, r') | None => None end
   | 7%Z :: r => Some (MClearHeaders, r)
+  | 8%Z :: m :: r => match dec_str r with Some (v, r') => Some (MEnv (negb (Z.eqb m 0)) v, r') | None => None end
   | _ => None
   end.
 
